@@ -3,7 +3,7 @@
 From Coq Require Import List Arith Bool NArith.
 From GV Require Import Base.Result Gen.TokenTypes Gen.Defs Model.Parser Spec.Layout Spec.LayoutSim
   Proofs.C03.Bounded4 Proofs.C18.Bounded Proofs.C18.Sim Proofs.C18.Trim Proofs.C18.Main Proofs.C18.Settled
-  Proofs.C18.SettledBounded Proofs.C18.Summary.
+  Proofs.C18.SettledBounded Proofs.C18.Insert Proofs.C18.Summary.
 Import ListNotations.
 
 (* The parser model takes a list of token TYPES: the text of a whitespace run, of an
@@ -123,6 +123,33 @@ Theorem C18_whitespace_repetition : forall (pre post : list token_type) (k : nat
 Proof. exact whitespace_repetition. Qed.
 Print Assumptions C18_whitespace_repetition.
 
+(* an annotation or comment line inserted ANYWHERE inside an accepted program (with or
+   without whitespace in that gap, e.g. a comment line right after a blank line): still
+   accepted, same tree.  One direction only: `5 []()` is a composition error while
+   `5 []@a()` is accepted (example below) *)
+Theorem C18_annotation_insert : forall (pre post : list token_type) (a : token_type) (t : gtree),
+  has_sig pre = true -> has_sig post = true -> settled_after (drop_while_trim pre) ->
+  is_annotation_tok a = true ->
+  parse_tree (pre ++ post) = Some t -> parse_tree (pre ++ [a] ++ post) = Some t.
+Proof. exact annotation_insert. Qed.
+Print Assumptions C18_annotation_insert.
+
+Theorem C18_annotation_insert_unless_block_end :
+  forall (pre post : list token_type) (a : token_type) (t : gtree),
+  has_sig pre = true -> has_sig post = true -> not_after_block_end pre = true ->
+  is_annotation_tok a = true ->
+  parse_tree (pre ++ post) = Some t -> parse_tree (pre ++ [a] ++ post) = Some t.
+Proof. exact annotation_insert_unless_block_end. Qed.
+Print Assumptions C18_annotation_insert_unless_block_end.
+
+Theorem C18_annotation_insert_prefix_6_block :
+  forall (pre post : list token_type) (a : token_type) (t : gtree),
+  length pre <= 6 -> (forall x, In x pre -> In x block_alphabet) ->
+  has_sig pre = true -> has_sig post = true -> is_annotation_tok a = true ->
+  parse_tree (pre ++ post) = Some t -> parse_tree (pre ++ [a] ++ post) = Some t.
+Proof. exact annotation_insert_prefix_6_block. Qed.
+Print Assumptions C18_annotation_insert_prefix_6_block.
+
 (* full statement for gaps that already hold trivia (no settled hypothesis): NOT proved;
    what is missing is the settled condition right after the end of a side-effect block
    for prefixes beyond the two enumerations above *)
@@ -171,3 +198,25 @@ Example C18_ex_discriminating :
                 (parse_tree [TT_Number; TT_Subexpression; TT_Whitespace; TT_Annotation]) = false /\
   has_sig [] = false.
 Proof. vm_compute. repeat split; try reflexivity; discriminate. Qed.
+
+(* `(5+a) 7 <blank line> (b,3)` with a comment line put right after the blank line (no
+   whitespace in that gap): hypotheses of C18_annotation_insert_unless_block_end hold, the
+   program is accepted; and the converse direction really fails *)
+Definition ex_pre2 : list token_type :=
+  [TT_StartGroup; TT_Number; TT_PlusSign; TT_Identifier; TT_EndGroup; TT_Whitespace; TT_Number; TT_Subexpression].
+Definition ex_post2 : list token_type := [TT_StartGroup; TT_Identifier; TT_Comma; TT_Number; TT_EndGroup].
+Example C18_ex_insert :
+  has_sig ex_pre2 = true /\ has_sig ex_post2 = true /\ not_after_block_end ex_pre2 = true /\
+  (exists l r, parse_tree (ex_pre2 ++ ex_post2) = Some (GN D_Subexpression l r)) /\
+  parse_tree (ex_pre2 ++ [TT_LineAnnotation] ++ ex_post2) = parse_tree (ex_pre2 ++ ex_post2).
+Proof.
+  split; [reflexivity|]. split; [reflexivity|]. split; [reflexivity|]. split.
+  - vm_compute. eexists _, _. reflexivity.
+  - destruct (parse_tree (ex_pre2 ++ ex_post2)) as [t|] eqn:E; [|vm_compute in E; discriminate E].
+    apply (C18_annotation_insert_unless_block_end ex_pre2 ex_post2 TT_LineAnnotation t); try reflexivity. exact E.
+Qed.
+Example C18_ex_insert_one_direction :
+  parse_tree [TT_Number; TT_Whitespace; TT_StartSideEffect; TT_EndSideEffect; TT_StartGroup; TT_EndGroup] = None /\
+  parse_tree [TT_Number; TT_Whitespace; TT_StartSideEffect; TT_EndSideEffect; TT_Annotation; TT_StartGroup; TT_EndGroup]
+    <> None.
+Proof. vm_compute. split; [reflexivity|discriminate]. Qed.
